@@ -114,6 +114,9 @@ func builtinJSONParseDecode(ctx builtinJSONParseContext, dec *json.Decoder) Valu
 	return Value{}
 }
 
+// jsonStringifyMaxDepth bounds the nesting JSON.stringify descends into.
+const jsonStringifyMaxDepth = 5000
+
 type builtinJSONStringifyContext struct {
 	replacerFunction *Value
 	gap              string
@@ -263,6 +266,11 @@ func builtinJSONStringifyWalk(ctx builtinJSONStringifyContext, key string, holde
 				}
 			}
 			ctx.stack = append(ctx.stack, value)
+			if len(ctx.stack) > jsonStringifyMaxDepth {
+				// toJSON or a replacer can hand back a fresh object at every level, which the cycle
+				// test cannot see; the native recursion must end like a script recursion does.
+				panic(ctx.call.runtime.panicRangeError("Maximum call stack size exceeded"))
+			}
 			defer func() { ctx.stack = ctx.stack[:len(ctx.stack)-1] }()
 		}
 		if isArray(objHolder) {
